@@ -173,6 +173,8 @@ class Gen:
             return bytes(rng.getrandbits(8) for _ in range(16)).hex()
         if k == 'int256':
             return bytes(rng.getrandbits(8) for _ in range(32)).hex()
+        if k == 'bytes' and isinstance(hint, tuple) and hint[0] == 'raw':
+            return bytes(hint[1])
         if k == 'bytes' and isinstance(hint, dict):
             # a bytes field that carries boxed TL objects (as ADNL queries and answers do): hint = {'nest': k}
             return {'@nested': [self.ctor(self.rng.choice(self.small), 2, tag=True) for _ in range(hint['nest'])]}
